@@ -1079,6 +1079,11 @@ def run(chk):
     chk.rule = ("one case = (font, request, options) pushed through the real Subsetter; distinct by (font, request, options); "
                 "non-trivial = the request removes at least one glyph and keeps at least one besides .notdef")
     thorough = chk.tier == "thorough"
+    import random
+
+    # two independent streams drawn from chk.rng, so that the corpus cases do not depend on how many model cases were sampled
+    rng_sample = random.Random(chk.rng.getrandbits(64))
+    rng_opts = random.Random(chk.rng.getrandbits(64))
     # ---- (M) --------------------------------------------------------------------
     gens = run_model(chk)
     # ---- (R) --------------------------------------------------------------------
@@ -1095,7 +1100,7 @@ def run(chk):
     for st in range(3):
         pool = [k for k in range(len(gens)) if stratum(gens[k]) == st]
         chk.notes["model_cases_stratum_%d" % st] = len(pool)
-        idxs += chk.rng.sample(pool, min(quota[st], len(pool)))
+        idxs += rng_sample.sample(pool, min(quota[st], len(pool)))
     idxs.sort()
     res = common.pmap(gen_job, [(gens[k], chk.seed, k) for k in idxs], chunksize=8)
     fonts, traces, fkey = [], [], {}
@@ -1121,7 +1126,7 @@ def run(chk):
     # ---- (V) --------------------------------------------------------------------
     from . import fonts as F
 
-    optrows = pairwise_rows(option_levels(), chk.rng)
+    optrows = pairwise_rows(option_levels(), rng_opts)
     chk.notes["option_rows"] = len(optrows)
     files = []
     for p in common.corpus_fonts():
